@@ -15,19 +15,19 @@ CHECKS = {
  "C01": dict(engine=E1, cat="exploration", ref="§4 C01",
    technique="property-based testing: generated clause lists and call histories, differential against a reference model (first declared match), proptest shrinking",
    text="Generated search: tens of thousands (quick) to ~1.6 million (thorough) random unordered clause lists with arbitrary accept masks and histories are executed on the real mock and on an independent reference model; every call's returned tag (identifying pattern and segment), side effects and the verification message are compared. A second sub-check rewrites every pattern to an exact expectation derived from the model's counts so any miscount flips the verification message. The thorough tier repeats both against the no_std+spin-lock and the no-mutex builds of the library and adds a coverage-guided libFuzzer campaign (oracle inside the target).",
-   note=DYN),
+   note="sub-checks added after the seeding rounds: wide-clause-lists (up to 16 clauses, mocks are real tuples), zero-sized-inputs (methods without sized inputs), matchers written with the real matching! macro (alternatives, ranges, || guards, eq!, one macro_rules! table of eq! patterns) and matcher closures that register no function; " + DYN),
  "C02": dict(engine=E1, cat="exploration", ref="§4 C02",
    technique="property-based testing: generated quantifier chains x response kinds x match counts, differential against segment arithmetic of a reference model",
    text="Generated quantifier chains (1-5 segments, once/n_times(0..4)/at_least/then, all response kinds, some/each/next/stub entry forms, ordered and unordered) are built through the real type-state builder and matched 0..end+3 times; the tag of every response is compared with the model's segment arithmetic, single-use values must panic on the second request. Additionally every schedule of 2-3 threads walking one response chain is enumerated (engine E3): the multiset of responses must be chain positions 1..N.",
-   note=DYN + "; return values beyond the end of an all-exact chain are not compared (undefined by the property)"),
+   note="further sub-checks: answers-after-rejections (histories continue after rejected calls; when pattern P answers, the segment must be the one for P's number of earlier answered matches), single-use-composite-shapes (grid shared with C12), racing-* (all schedules of 2-3 threads on one chain); " + DYN + "; return values beyond the end of an all-exact chain are not compared (undefined by the property)"),
  "C03": dict(engine=E1, cat="exploration", ref="§4 C03",
    technique="property-based testing with steered histories (counts at bound-1/bound/bound+1) plus an exhaustively enumerated boundary grid; oracle = reference model verdict and set of named expectations",
    text="Histories are synthesised so that every pattern lands one below, at or one above its bound (every subset of violated expectations occurs); the real verdict (drop / verify() / report()) must equal the model's in both directions and the failure text must name exactly the violated patterns/methods. The one-pattern boundary grid (entry form x quantifier kind x bound 0..3 x count x route x strict/partial) is enumerated exhaustively.",
-   note=DYN + "; report() is judged by its ExitCode; only the identity named by each line is compared, not wording or numbers"),
+   note="wide-clause-lists: steered histories over up to 16 clauses (real tuples); verification through drop / verify() / report() / no_verify_in_drop()+verify(); " + DYN + "; report() is judged by its ExitCode; only the identity named by each line is compared, not wording or numbers"),
  "C04": dict(engine=E1, cat="exploration", ref="§4 C04",
    technique="property-based testing: model-guided random walks over generated ordered clause sequences, plus prefix x next-call enumeration per generated configuration; oracle = global slot-sequence model",
    text="Generated next_call sequences over several methods (counts 0..3, chains inside a slot range) interleaved with unordered clauses; histories follow the expected sequence with 80% probability and otherwise deviate; per configuration every accepted prefix is extended by every possible next call. Accepted calls must return the slot's response, the first deviation must panic, unordered calls must not move the sequence.",
-   note=DYN + "; behaviour after the first deviation is not compared"),
+   note="after-deviation: histories continue after deviations and only the stated necessary condition is checked (the i-th call made to an ordered method may be accepted only by slot i, with slot i's response); wide-clause-lists up to 16 clauses; " + DYN + "; behaviour after the first deviation is not compared"),
  "C07": dict(engine=E1, cat="exploration", ref="§4 C07",
    technique="exhaustive enumeration of the resolution decision table plus property-based random scenarios; oracle = reference model of the documented fall-through order, side-effect log of real functions / default bodies",
    text="The full table {strict,partial} x {unmentioned, unmatched, matched} x method facts {real fn, default body, both, neither; &self/&mut self} x {unordered, ordered} x every argument x position is enumerated; random scenarios with ~45% unmentioned methods add histories. Outcomes, the side-effect log (body/function really ran, once) and unchanged counts (two-segment chains shift a tag on any stray count) are compared with the model. The partial-by-default method of the crate (Termination::report) is enumerated separately: unmentioned it runs the real behaviour in strict and partial mocks, mentioned it returns the configured value.",
